@@ -3,6 +3,7 @@ package annmodel
 import (
 	"bytes"
 	"encoding/binary"
+	"fmt"
 	"sort"
 )
 
@@ -222,6 +223,81 @@ func (v *LabelVol) RunsOfSV(sv uint64, lo, hi Point) (runs []Run, voxels int) {
 		}
 	}
 	return
+}
+
+// RunsWhere lists the X runs of the voxels inside [lo,hi) that satisfy pred.
+func (v *LabelVol) RunsWhere(lo, hi Point, pred func(p Point) bool) (runs []Run, voxels int) {
+	for z := lo[2]; z < hi[2]; z++ {
+		for y := lo[1]; y < hi[1]; y++ {
+			var cur *Run
+			for x := lo[0]; x < hi[0]; x++ {
+				p := Point{x, y, z}
+				if v.Covers(p) && pred(p) {
+					voxels++
+					if cur == nil {
+						runs = append(runs, Run{p, 0})
+						cur = &runs[len(runs)-1]
+					}
+					cur.Len++
+				} else {
+					cur = nil
+				}
+			}
+		}
+	}
+	return
+}
+
+// BodyVoxels counts the voxels of a body.
+func (v *LabelVol) BodyVoxels(body uint64) int {
+	n := 0
+	for _, s := range v.SV {
+		if s != 0 && v.BodyOf(s) == body {
+			n++
+		}
+	}
+	return n
+}
+
+// ApplySplit models POST split/<label>: the voxels of the runs become the new body.  The server renames the
+// affected supervoxels with ids of its own choice, so the new supervoxel volume is taken from readback (the
+// labelmap's GET raw?supervoxels=true over exactly this box); every supervoxel must end up in exactly one body.
+func (v *LabelVol) ApplySplit(runs []Run, newLabel uint64, readback []byte) error {
+	if len(readback) != len(v.SV)*8 {
+		return fmt.Errorf("readback has %d bytes, want %d", len(readback), len(v.SV)*8)
+	}
+	in := map[int]bool{}
+	for _, r := range runs {
+		for k := int32(0); k < r.Len; k++ {
+			if i, ok := v.idx(Point{r.Start[0] + k, r.Start[1], r.Start[2]}); ok {
+				in[i] = true
+			}
+		}
+	}
+	want := map[uint64]uint64{}
+	for i, old := range v.SV {
+		nsv := binary.LittleEndian.Uint64(readback[i*8:])
+		body := v.BodyOf(old)
+		if in[i] {
+			body = newLabel
+		}
+		if (nsv == 0) != (body == 0) {
+			return fmt.Errorf("voxel %d: supervoxel %d but body %d", i, nsv, body)
+		}
+		if b, ok := want[nsv]; ok && b != body {
+			return fmt.Errorf("supervoxel %d would belong to bodies %d and %d", nsv, b, body)
+		}
+		want[nsv] = body
+	}
+	for i := range v.SV {
+		v.SV[i] = binary.LittleEndian.Uint64(readback[i*8:])
+	}
+	for s, b := range want {
+		if s != 0 {
+			v.Map[s] = b
+		}
+	}
+	return nil
 }
 
 // SVBounds returns the bounding box [lo,hi) of supervoxel sv (ok=false if absent).
